@@ -383,6 +383,147 @@ PROP = {
 }
 SPECS["Proportion"] = PROP
 
+# ----------------------------------------------------------------------------- datasets.py
+def _datasets_emit(tr):
+    """The parameter expressions handed to the rng.* calls of _make_data, as functions of the generator parameters and
+    of ONE user's variant (0 or 1) and, for the covariates, of that user's earlier draws; ds_* for users data
+    (explode_sessions = False), dsx_* for sessions data; ds_valid from _check_params."""
+    from py2coq import Unsupported, fail
+    f = tr.find_def("_make_data")
+    assigns, explode_assigns, cov_assigns = {}, {}, {}
+    order = []
+    for n in f.body:
+        if isinstance(n, _ast.Assign) and isinstance(n.targets[0], _ast.Name):
+            assigns.setdefault(n.targets[0].id, n.value)
+            order.append(n.targets[0].id)
+        elif isinstance(n, _ast.If) and _ast.unparse(n.test) == "explode_sessions":
+            for m in n.body:
+                if not (isinstance(m, _ast.Assign) and isinstance(m.targets[0], _ast.Name)):
+                    fail(m, "explode branch")
+                explode_assigns[m.targets[0].id] = m.value
+        elif isinstance(n, _ast.If) and _ast.unparse(n.test) == "covariates":
+            for m in n.body:
+                if isinstance(m, _ast.Assign) and isinstance(m.targets[0], _ast.Name):
+                    cov_assigns[m.targets[0].id] = m.value
+    if set(explode_assigns) != {"user", "sessions", "size", "revenue_log_scale"}:
+        raise Unsupported(f"explode branch assigns {sorted(explode_assigns)}")
+    want = {"user": "np.repeat(user, sessions)", "sessions": "np.ones_like(user)", "size": "len(user)"}
+    for k, v in want.items():
+        if _ast.unparse(explode_assigns[k]) != v:
+            raise Unsupported(f"explode branch: {k} = {_ast.unparse(explode_assigns[k])}")
+    # the order of the random draws is part of the model (it decides which draws users and sessions data share)
+    draws = [k for k in order if "rng." in _ast.unparse(assigns[k])]
+    if draws != ["variant", "sessions", "orders_per_sessions", "orders", "revenue_per_order"]:
+        raise Unsupported(f"draw order {draws}")
+    cdraws = [k for k in cov_assigns if "rng." in _ast.unparse(cov_assigns[k])]
+    if cdraws != ["sessions_covariate", "orders_covariate", "revenue_per_order_covariate"]:
+        raise Unsupported(f"covariate draw order {cdraws}")
+
+    def rng_call(table, var, meth):
+        v = table.get(var)
+        call = v
+        if isinstance(v, _ast.BinOp):      # sessions = 1 + rng.poisson(...)
+            if not (_ast.unparse(v.left) == "1" and isinstance(v.op, _ast.Add)):
+                fail(v, "sessions expression")
+            call = v.right
+        if not (isinstance(call, _ast.Call) and _ast.unparse(call.func) == "rng." + meth):
+            raise Unsupported(f"{var} is no longer drawn with rng.{meth}: {_ast.unparse(v) if v is not None else None}")
+        return {k.arg: k.value for k in call.keywords}
+    params = ["ratio", "sessions_uplift", "orders_uplift", "revenue_uplift", "avg_sessions", "avg_orders_per_session",
+              "avg_revenue_per_order"]
+    out = []
+
+    def emit(prefix, explode):
+        env = {p: NUM for p in params + ["variant"]}
+        binders = " ".join(f"(v_{p} : num)" for p in params + ["variant"])
+        prelude = ""
+        names = ["sessions_mult", "orders_per_sessions_sample_size", "revenue_log_scale"]
+        if explode:
+            names.append("revenue_log_scale'")
+        names += ["orders_per_sessions_mult", "revenue_per_order_mult"]
+        for nm in names:
+            node = explode_assigns["revenue_log_scale"] if nm.endswith("'") else assigns.get(nm)
+            nm = nm.rstrip("'")
+            if node is None:
+                raise Unsupported(f"{nm} not assigned")
+            t, ty = tr.ex(node, env)
+            prelude += f"let v_{nm} := {t} in\n  "
+            env[nm] = ty
+
+        def define(name, node, extra="", extra_env=None, comment=""):
+            e = dict(env)
+            e.update(extra_env or {})
+            # indexing by user (broadcast of a per-user array to rows) is the identity for one user's row
+            node = _ast.parse(_ast.unparse(node).replace("[user]", ""), mode="eval").body
+            t, ty = tr.ex(node, e)
+            if ty != NUM:
+                fail(node, "expected a number")
+            out.append(f"(* {comment} *)\nDefinition {prefix}_{name} {binders}{extra} : num :=\n  {prelude}{t}.\n")
+        kw = rng_call(assigns, "variant", "binomial")
+        if _ast.unparse(kw["n"]) != "1":
+            raise Unsupported("variant draw")
+        define("variant_p", kw["p"], comment="variant ~ Bernoulli(p)")
+        kw = rng_call(assigns, "sessions", "poisson")
+        define("sessions_lam", kw["lam"], comment="sessions = 1 + Poisson(lam)")
+        kw = rng_call(assigns, "orders_per_sessions", "beta")
+        define("ops_a", kw["a"], comment="orders per session ~ Beta(a, b)")
+        define("ops_b", kw["b"])
+        kw = rng_call(assigns, "orders", "binomial")
+        if _ast.unparse(kw["n"]) != "sessions" or _ast.unparse(kw["p"]) != "orders_per_sessions[user]":
+            raise Unsupported("orders draw: " + str({k: _ast.unparse(v) for k, v in kw.items()}))
+        kw = rng_call(assigns, "revenue_per_order", "lognormal")
+        define("rpo_mean", kw["mean"], comment="revenue per order ~ LogNormal(mean, sigma)")
+        define("rpo_sigma", kw["sigma"])
+        if _ast.unparse(assigns["revenue"]) != "orders * revenue_per_order":
+            raise Unsupported("revenue = " + _ast.unparse(assigns["revenue"]))
+        # covariates: functions of this row's own draws
+        kw = rng_call(cov_assigns, "sessions_covariate", "poisson")
+        define("cov_sessions_lam", kw["lam"], " (v_sessions : num)", {"sessions": NUM}, "sessions_covariate ~ Poisson(lam)")
+        define("cov_ops", cov_assigns["orders_per_sessions_covariate"], " (v_orders_per_sessions : num)",
+               {"orders_per_sessions": NUM}, "orders_covariate ~ Binomial(sessions_covariate, p)")
+        kw = rng_call(cov_assigns, "orders_covariate", "binomial")
+        if _ast.unparse(kw["n"]) != "sessions_covariate" or _ast.unparse(kw["p"]) != "orders_per_sessions_covariate[user]":
+            raise Unsupported("orders_covariate draw")
+        kw = rng_call(cov_assigns, "revenue_per_order_covariate", "lognormal")
+        define("cov_rpo_mean", kw["mean"], " (v_revenue_per_order : num)", {"revenue_per_order": NUM},
+               "revenue per order covariate ~ LogNormal(mean, sigma)")
+        if _ast.unparse(kw["sigma"]) != "revenue_log_scale":
+            raise Unsupported("covariate sigma")
+        if _ast.unparse(cov_assigns["revenue_covariate"]) != "orders_covariate * revenue_per_order_covariate":
+            raise Unsupported("revenue_covariate")
+    emit("ds", False)
+    emit("dsx", True)
+    # parameter domain
+    g = tr.find_def("_check_params")
+    conj = []
+    env = {p: NUM for p in params}
+    for n in g.body:
+        if not (isinstance(n, _ast.Expr) and isinstance(n.value, _ast.Call)
+                and _ast.unparse(n.value.func) == "tea_tasting.utils.check_scalar"):
+            fail(n, "_check_params statement")
+        c = n.value
+        who = _ast.unparse(c.args[0])
+        for k in c.keywords:
+            if k.arg in ("name", "typ"):
+                continue
+            if who == "n_users":
+                continue
+            t, ty = tr.ex(k.value, env)
+            x = f"v_{who}"
+            conj.append({"gt": f"(nltb {t} {x})", "lt": f"(nltb {x} {t})", "ge": f"(nleb {t} {x})",
+                         "le": f"(nleb {x} {t})"}[k.arg])
+    binders = " ".join(f"(v_{p} : num)" for p in params)
+    out.append(f"(* _check_params (n_users aside) *)\nDefinition ds_valid {binders} : bool :=\n  "
+               + "\n  && ".join(conj) + ".\n")
+    return "\n".join(out)
+
+
+DATASETS = {
+    "source": "datasets.py",
+    "targets": [{"raw": _datasets_emit}],
+}
+SPECS["Datasets"] = DATASETS
+
 # instance-independent models (over lib/PyVal): (name, translator module, source file)
 PLAIN = [("Utils", "utils2coq", "utils.py"), ("ExperimentPairs", "exp2coq", "experiment.py"),
          ("Resampling", "gran2coq", "metrics/resampling.py")]
